@@ -87,7 +87,9 @@ def gen_cfg(rng, max_wfs=3, max_n=4, max_total=12, dyadic=False, lam_units=True)
     for _ in range(nl):
         layers.append({"alt": rng.choice([0.0, rng.uniform(100., 18000.)]),
                        "r0": math.exp(rng.uniform(math.log(0.05), math.log(1.0))),
-                       "L0": math.exp(rng.uniform(math.log(2.0), math.log(200.)))})
+                       # outer scales from a few metres to several km (the near-Kolmogorov regime users ask for with a huge L0)
+                       "L0": math.exp(rng.uniform(math.log(2.0), math.log(200.))) if rng.random() < 0.7
+                       else math.exp(rng.uniform(math.log(200.), math.log(2e4)))})
     unit = rng.choice([1.0, 1.0, 1.0, 1e6, 1e9]) if lam_units else 1.0     # metres, microns, nanometres
     same_d = rng.random() < 0.5
     base_n = max(len(wfs[0]["mask"]), len(wfs[0]["mask"][0]))
